@@ -88,10 +88,46 @@ fn sanitize(v: &Value) -> Value {
 }
 
 fn body(space: Space, depth: usize) -> impl Fn(&Ch) -> Run + Sync + Send {
+  body_with(move |ch: &Ch| space.generate(ch, 2, Some(2)), depth)
+}
+
+/// Worlds around a redirect chain: root 0 imports the head, root 1 enters the
+/// chain anywhere, the chain (1-3 hops) ends in a TypeScript module that may
+/// import a further module.
+fn chain_world(ch: &Ch) -> World {
+  let len = 1 + ch.shape("chain_len", 3);
+  let enter = ch.shape("second_root_enters_at", len + 1);
+  // 0, 1: roots; 2..2+len: redirects; 2+len: terminal; 3+len: leaf
+  let n = 4 + len;
+  let mut kinds = vec![Kind::Ts; n];
+  let mut redirect_to = vec![0; n];
+  for i in 0..len {
+    kinds[2 + i] = Kind::Redirect;
+    redirect_to[2 + i] = 3 + i;
+  }
+  let mut edges = vec![
+    Edge { src: 0, form: Form::Import, dst: Target::Spec(2), aux: 0 },
+    Edge { src: 1, form: Form::Import, dst: Target::Spec(2 + enter), aux: 0 },
+  ];
+  if ch.flag("terminal_imports_leaf") {
+    edges.push(Edge { src: 2 + len, form: Form::Import, dst: Target::Spec(3 + len), aux: 0 });
+  }
+  World {
+    remote: true,
+    kinds,
+    attrs: vec![Attr::None; n],
+    redirect_to,
+    edges,
+    types_header: None,
+    n_roots: 2,
+  }
+}
+
+fn body_with(generate: impl Fn(&Ch) -> World + Sync + Send, depth: usize) -> impl Fn(&Ch) -> Run + Sync + Send {
   move |ch: &Ch| {
     let mut run = Run::default();
-    let n_specs = space.n_specs;
-    let world = space.generate(ch, 2, Some(2));
+    let world = generate(ch);
+    let n_specs = world.kinds.len();
     // one alternative import list per source module (default: no imports)
     let mut alt: Vec<Option<Vec<Edge>>> = vec![None; n_specs];
     for i in 0..n_specs {
@@ -212,10 +248,22 @@ fn body(space: Space, depth: usize) -> impl Fn(&Ch) -> Run + Sync + Send {
           run.count("excluded_source_phase_clobber", 1);
           break;
         }
-        history.push(format!("edit+reload({})", cur.url(m).path()));
+        // the reload names the edited specifier, or a specifier that redirects to it
+        // (only one the graph has recorded as such: to the graph any other name is a different module)
+        let sources: Vec<usize> = (0..n_specs)
+          .filter(|i| cur.kinds[*i] == Kind::Redirect && cur.final_target(*i) == m && !asset_target(*i))
+          .filter(|i| graph.redirects.contains_key(&cur.url(*i)) && *graph.resolve(&cur.url(*i)) == cur.url(m))
+          .collect();
+        let via = ch.choose("reload_via_redirecting_specifier", 1 + sources.len());
+        let named = if via == 0 { m } else { sources[via - 1] };
+        if named == m {
+          history.push(format!("edit+reload({})", cur.url(m).path()));
+        } else {
+          history.push(format!("edit({})+reload({})", cur.url(m).path(), cur.url(named).path()));
+        }
         cur.install(&loader);
         reloaded = Some(m);
-        if reload_graph(&mut graph, vec![cur.url(m)], &loader, cfg(), ch).is_err() {
+        if reload_graph(&mut graph, vec![cur.url(named)], &loader, cfg(), ch).is_err() {
           run.violate("build-did-not-finish", "deadlock", json!({"history": history}));
           break;
         }
@@ -358,6 +406,12 @@ pub fn prop(tier: Tier) -> Prop {
       body: Box::new(body(Space::generic(3, 2), 3)),
       modes: vec![Mode::Deviations(1), Mode::Deviations(2)],
       what: "3-specifier worlds x one alternative import list per module; all histories of <= 3 operations from {build(r0), build(r1), build(r0,r1), edit+reload(m)}",
+    },
+    Part {
+      name: "chains",
+      body: Box::new(body_with(chain_world, 3)),
+      modes: vec![Mode::Deviations(0), Mode::Deviations(1)],
+      what: "worlds around a redirect chain of 1-3 hops (second root enters anywhere); edits of the modules behind the chain, reloaded by their own specifier or by any specifier redirecting to them",
     }],
     Tier::Thorough => vec![
       Part {
@@ -365,6 +419,12 @@ pub fn prop(tier: Tier) -> Prop {
         body: Box::new(body(Space::generic(3, 2), 4)),
         modes: vec![Mode::Deviations(1), Mode::Deviations(2), Mode::Deviations(3)],
         what: "3-specifier worlds, histories of <= 4 operations",
+      },
+      Part {
+        name: "chains",
+        body: Box::new(body_with(chain_world, 4)),
+        modes: vec![Mode::Deviations(1), Mode::Deviations(2), Mode::Deviations(3)],
+        what: "worlds around a redirect chain of 1-3 hops, histories of <= 4 operations, reload by own specifier or through any redirecting specifier",
       },
       Part {
         name: "histories4",
@@ -379,7 +439,7 @@ pub fn prop(tier: Tier) -> Prop {
     rule: "state = (world, alternative import lists, operation history); histories are all sequences up to the depth over {build(r0), build(r1), build(r0,r1), edit+reload(m) for each source module}; after every operation the live graph is compared with a from-scratch build of the roots so far on the current sources (whole graph when no edit happened; reachable entries + untouched leftovers after edits); rebuilding known roots must be a no-op. Non-trivial = history of >= 2 operations.".into(),
     assumptions: vec![
       "history operations are free (shape) choices - every history up to the depth is explored for every world within the deviation bound".into(),
-      "an edit toggles one module between its generated import list and one alternative import list (a missing / unparsable / loader-error entry toggles to a healthy TypeScript module and back); it is always followed by a reload of that specifier".into(),
+      "an edit toggles one module between its generated import list and one alternative import list (a missing / unparsable / loader-error entry toggles to a healthy TypeScript module and back); it is always followed by a reload that names that specifier or (one deviation) a specifier redirecting to it - Builder::reload resolves redirects, so embedders may name either".into(),
       "a reload is an attribute-less load, so specifiers that some import loads as an asset (type attribute, source phase) are not reloaded (same-attribute proviso)".into(),
       "error entries are compared by kind, specifier and message; which importer an error blames is decided by whoever requested it first and is not compared".into(),
       "same-attribute proviso as C01; worlds where a source-phase import targets an otherwise-loaded specifier are excluded (reported under C01)".into(),
